@@ -106,70 +106,7 @@ class ParserRoles:
         self._attr_roles = self._discover_attr_roles()
 
     def _discover_methods(self, pm):
-        """Fill missing private-method roles from the shape of the code (used when methods were renamed)."""
-        M = self.Parser.methods
-        parse = pm.get("parse")
-        if parse is None:
-            return
-        sn = parse.params[0]
-
-        def self_calls_in(node):
-            return [c for c in walk_no_nested(node) if isinstance(c, ast.Call) and isinstance(c.func, ast.Attribute)
-                    and isinstance(c.func.value, ast.Name) and c.func.value.id in (sn, "self") and c.func.attr in M]
-        if "reset_parser" not in pm:
-            for st in parse.node.body:
-                if isinstance(st, ast.Expr) and isinstance(st.value, ast.Call) and st.value in self_calls_in(st):
-                    pm["reset_parser"] = M[st.value.func.attr]
-                    break
-        if "command" not in pm:
-            for lp in ast.walk(parse.node):
-                if isinstance(lp, ast.For) and isinstance(lp.target, ast.Tuple):
-                    names = [t.id for t in lp.target.elts if isinstance(t, ast.Name)]
-                    for c in self_calls_in(lp):
-                        if [a.id for a in c.args if isinstance(a, ast.Name)] == names:
-                            pm["command"] = M[c.func.attr]
-        cmd = pm.get("command")
-        if cmd is not None:
-            slot_targets = [a.value.attr for a in walk_no_nested(cmd.node) if isinstance(a, ast.Assign) and isinstance(a.value, ast.Attribute)
-                            and isinstance(a.value.value, ast.Name) and a.value.attr in M]
-            if "arguments" not in pm and slot_targets:
-                pm["arguments"] = M[slot_targets[0]]
-            if "up" not in pm:
-                for c in self_calls_in(cmd.node):
-                    g = M[c.func.attr]
-                    if any(isinstance(x, ast.Attribute) and x.attr == "result" and isinstance(x.ctx, ast.Store) for x in ast.walk(g.node)) and len(g.params) <= 2:
-                        pm["up"] = g
-        args = pm.get("arguments")
-        if args is not None:
-            for c in self_calls_in(args.node):
-                g = M[c.func.attr]
-                if len(g.params) == 3 and len(c.args) == 2 and "argument" not in pm and g is not args:
-                    if any(isinstance(a, ast.Assign) and isinstance(a.value, ast.Attribute) and a.value.attr in M for a in walk_no_nested(g.node)):
-                        pm["argument"] = g
-            for st in walk_no_nested(args.node):
-                if isinstance(st, ast.Return) and isinstance(st.value, ast.Call) and st.value in self_calls_in(st) and "check_command_completion" not in pm:
-                    g = M[st.value.func.attr]
-                    if g is not pm.get("argument"):
-                        pm["check_command_completion"] = g
-        arg = pm.get("argument")
-        if arg is not None and "stringlist" not in pm:
-            for a in walk_no_nested(arg.node):
-                if isinstance(a, ast.Assign) and isinstance(a.value, ast.Attribute) and a.value.attr in M:
-                    pm["stringlist"] = M[a.value.attr]
-        for n, g in M.items():
-            va = g.node.args.vararg
-            if va is not None and "set_expected" not in pm and any(
-                    isinstance(a, ast.Assign) and isinstance(a.value, ast.Name) and a.value.id == va.arg
-                    and any(isinstance(t, ast.Attribute) for t in a.targets) for a in walk_no_nested(g.node)):
-                pm["set_expected"] = g
-            taken = {id(pm[k]) for k in ("command", "arguments", "argument", "stringlist", "up", "check_command_completion", "reset_parser",
-                                           "set_expected", "push_expected_bracket", "pop_expected_bracket") if k in pm}
-            if len(g.params) == 3 and id(g) not in taken:
-                calls = {call_name(c) for c in walk_no_nested(g.node) if isinstance(c, ast.Call)}
-                if "append" in calls and "push_expected_bracket" not in pm and len(g.node.body) <= 3:
-                    pm["push_expected_bracket"] = g
-                elif "pop" in calls and "pop_expected_bracket" not in pm and any(isinstance(x, ast.Raise) for x in ast.walk(g.node)):
-                    pm["pop_expected_bracket"] = g
+        discover_parser_methods(self.Parser, pm)
 
     def _discover_attr_roles(self):
         """Private attribute names of Parser by role (robust against renaming)."""
@@ -280,3 +217,71 @@ class ParserRoles:
                         todo.append(g)
         self._reach = list(seen.values())
         return self._reach
+
+
+def discover_parser_methods(Parser, pm):
+    """Fill missing private-method roles of the Parser class from the shape of the code (used when methods were renamed)."""
+    M = Parser.methods
+    parse = pm.get("parse")
+    if parse is None:
+        return
+    sn = parse.params[0]
+
+    def self_calls_in(node):
+        return [c for c in walk_no_nested(node) if isinstance(c, ast.Call) and isinstance(c.func, ast.Attribute)
+                and isinstance(c.func.value, ast.Name) and c.func.value.id in (sn, "self") and c.func.attr in M]
+    if "reset_parser" not in pm:
+        for st in parse.node.body:
+            if isinstance(st, ast.Expr) and isinstance(st.value, ast.Call) and st.value in self_calls_in(st):
+                pm["reset_parser"] = M[st.value.func.attr]
+                break
+    if "command" not in pm:
+        for lp in ast.walk(parse.node):
+            if isinstance(lp, ast.For) and isinstance(lp.target, ast.Tuple):
+                names = [t.id for t in lp.target.elts if isinstance(t, ast.Name)]
+                for c in self_calls_in(lp):
+                    if [a.id for a in c.args if isinstance(a, ast.Name)] == names:
+                        pm["command"] = M[c.func.attr]
+    cmd = pm.get("command")
+    if cmd is not None:
+        slot_targets = [a.value.attr for a in walk_no_nested(cmd.node) if isinstance(a, ast.Assign) and isinstance(a.value, ast.Attribute)
+                        and isinstance(a.value.value, ast.Name) and a.value.attr in M]
+        if "arguments" not in pm and slot_targets:
+            pm["arguments"] = M[slot_targets[0]]
+        if "up" not in pm:
+            for c in self_calls_in(cmd.node):
+                g = M[c.func.attr]
+                if any(isinstance(x, ast.Attribute) and x.attr == "result" and isinstance(x.ctx, ast.Store) for x in ast.walk(g.node)) and len(g.params) <= 2:
+                    pm["up"] = g
+    args = pm.get("arguments")
+    if args is not None:
+        for c in self_calls_in(args.node):
+            g = M[c.func.attr]
+            if len(g.params) == 3 and len(c.args) == 2 and "argument" not in pm and g is not args:
+                if any(isinstance(a, ast.Assign) and isinstance(a.value, ast.Attribute) and a.value.attr in M for a in walk_no_nested(g.node)):
+                    pm["argument"] = g
+        for st in walk_no_nested(args.node):
+            if isinstance(st, ast.Return) and isinstance(st.value, ast.Call) and st.value in self_calls_in(st) and "check_command_completion" not in pm:
+                g = M[st.value.func.attr]
+                if g is not pm.get("argument"):
+                    pm["check_command_completion"] = g
+    arg = pm.get("argument")
+    if arg is not None and "stringlist" not in pm:
+        for a in walk_no_nested(arg.node):
+            if isinstance(a, ast.Assign) and isinstance(a.value, ast.Attribute) and a.value.attr in M:
+                pm["stringlist"] = M[a.value.attr]
+    for n, g in M.items():
+        va = g.node.args.vararg
+        if va is not None and "set_expected" not in pm and any(
+                isinstance(a, ast.Assign) and isinstance(a.value, ast.Name) and a.value.id == va.arg
+                and any(isinstance(t, ast.Attribute) for t in a.targets) for a in walk_no_nested(g.node)):
+            pm["set_expected"] = g
+        taken = {id(pm[k]) for k in ("command", "arguments", "argument", "stringlist", "up", "check_command_completion", "reset_parser",
+                                       "set_expected", "push_expected_bracket", "pop_expected_bracket") if k in pm}
+        if len(g.params) == 3 and id(g) not in taken:
+            calls = {call_name(c) for c in walk_no_nested(g.node) if isinstance(c, ast.Call)}
+            if "append" in calls and "push_expected_bracket" not in pm and len(g.node.body) <= 3:
+                pm["push_expected_bracket"] = g
+            elif "pop" in calls and "pop_expected_bracket" not in pm and any(isinstance(x, ast.Raise) for x in ast.walk(g.node)):
+                pm["pop_expected_bracket"] = g
+
